@@ -165,6 +165,41 @@ def H(n, log):
         if x is not None:
             yield x + 1
 
+def excname(e):
+    if isinstance(e, KeyError):
+        return 'KeyError'
+    if isinstance(e, IndexError):
+        return 'IndexError'
+    if isinstance(e, LookupError):
+        return 'LookupError'
+    if isinstance(e, ValueError):
+        return 'ValueError'
+    if isinstance(e, TypeError):
+        return 'TypeError'
+    if isinstance(e, ZeroDivisionError):
+        return 'ZeroDivisionError'
+    if isinstance(e, NotImplementedError):
+        return 'NotImplementedError'
+    if isinstance(e, RuntimeError):
+        return 'RuntimeError'
+    if isinstance(e, AttributeError):
+        return 'AttributeError'
+    if isinstance(e, GeneratorExit):
+        return 'GeneratorExit'
+    return 'other'
+
+def YF(n, log):
+    r = yield from F(n, log)
+    yield r
+
+def E(n, log):
+    try:
+        raise KeyError('k')
+    except KeyError:
+        x = yield 1
+        log.append(1)
+        raise
+
 def obs(g, v, first):
     try:
         if first:
@@ -174,35 +209,31 @@ def obs(g, v, first):
         return ('y', r)
     except StopIteration as e:
         return ('s', e.args)
-    except KeyError:
-        return ('e', 'KeyError')
-    except ValueError:
-        return ('e', 'ValueError')
-    except TypeError:
-        return ('e', 'TypeError')
-    except BaseException:
-        return ('e', 'other')
+    except BaseException as e:
+        return ('e', excname(e))
 
 def obsclose(g):
     try:
         g.close()
         return ('c', None)
-    except NotImplementedError:
-        return ('e', 'NotImplementedError')
-    except BaseException:
-        return ('e', 'other')
-
-def obsthrow(g):
-    try:
-        return ('y', g.throw(ValueError))
     except StopIteration as e:
         return ('s', e.args)
-    except NotImplementedError:
-        return ('e', 'NotImplementedError')
-    except ValueError:
-        return ('e', 'ValueError')
-    except BaseException:
-        return ('e', 'other')
+    except BaseException as e:
+        return ('e', excname(e))
+
+def obsthrow(g, exc):
+    try:
+        return ('y', g.throw(exc))
+    except StopIteration as e:
+        return ('s', e.args)
+    except BaseException as e:
+        return ('e', excname(e))
+
+def negkey(v):
+    return -v
+
+def kv(v):
+    return ('k' + str(v), v)
 
 def reenter():
     def rec():
@@ -212,6 +243,9 @@ def reenter():
 `
 
 var c05Exc = []string{"value", "key", "type", "zeroDiv", "index", "runtime", "attr", "lookup"}
+
+var c05ExcPy = map[string]string{"value": "ValueError", "key": "KeyError", "type": "TypeError", "zeroDiv": "ZeroDivisionError",
+	"index": "IndexError", "runtime": "RuntimeError", "attr": "AttributeError", "lookup": "LookupError", "genExit": "GeneratorExit"}
 
 // canonical text of a Python value
 func c05Show(o py.Object) string {
@@ -376,6 +410,22 @@ func c05ItSource(f []string) string {
 	switch cons[0] {
 	case "list", "tuple", "set", "sorted", "all", "any", "sum", "min", "max":
 		return "RES = " + cons[0] + "(" + p + ")"
+	case "maxkey":
+		return "RES = max(" + p + ", key=negkey)"
+	case "minkeyd":
+		return "RES = min(" + p + ", key=negkey, default=" + cons[1] + ")"
+	case "sortedkey":
+		return "RES = sorted(" + p + ", key=negkey)"
+	case "extend":
+		return "l = [5]\nl.extend(" + p + ")\nRES = l"
+	case "iadd":
+		return "l = [5]\nl += " + p + "\nRES = l"
+	case "setupdate":
+		return "s = {2, 4}\ns.update(" + p + ")\nRES = s"
+	case "dictupdate":
+		return "d = {'a': 0}\nd.update(map(kv, " + p + "))\nRES = [(k, d[k]) for k in sorted(d)]"
+	case "slice":
+		return "l = [5, 0, 6]\nl[1:2] = " + p + "\nRES = l"
 	case "next": // next() wants an iterator: a __getitem__ sequence / enumerate object is only iterable
 		return "RES = next(iter(" + p + "))"
 	case "sumstart":
@@ -445,7 +495,16 @@ func c05ItSource(f []string) string {
 func c05GenSource(f []string) string {
 	var b strings.Builder
 	gens := strings.Split(f[1], ",")
+	if strings.HasPrefix(f[1], "body:") {
+		// `body:<python source of def B(LG) with \n escapes, spaces as \s> <ops>`: one generator g0 = B(LOG0)
+		src := strings.ReplaceAll(strings.ReplaceAll(strings.TrimPrefix(f[1], "body:"), "\\n", "\n"), "\\s", " ")
+		b.WriteString(src + "\nLOG0 = []\ng0 = B(LOG0)\n")
+		gens = []string{"B"}
+	}
 	for i, g := range gens {
+		if g == "B" {
+			continue
+		}
 		n := g[1:]
 		fmt.Fprintf(&b, "LOG%d = []\n", i)
 		switch g[0] {
@@ -457,6 +516,10 @@ func c05GenSource(f []string) string {
 			fmt.Fprintf(&b, "g%d = D(%s)\n", i, n)
 		case 'H':
 			fmt.Fprintf(&b, "g%d = H(%s, LOG%d)\n", i, n, i)
+		case 'E':
+			fmt.Fprintf(&b, "g%d = E(%s, LOG%d)\n", i, n, i)
+		case 'G':
+			fmt.Fprintf(&b, "g%d = YF(%s, LOG%d)\n", i, n, i)
 		default:
 			panic("bad template " + g)
 		}
@@ -475,7 +538,8 @@ func c05GenSource(f []string) string {
 			case 'c':
 				fmt.Fprintf(&b, "OBS.append(obsclose(g%s))\n", op[1:])
 			case 't':
-				fmt.Fprintf(&b, "OBS.append(obsthrow(g%s))\n", op[1:])
+				ge := strings.SplitN(op[1:], ":", 2)
+				fmt.Fprintf(&b, "OBS.append(obsthrow(g%s, %s))\n", ge[0], c05ExcPy[ge[1]])
 			default:
 				panic("bad op " + op)
 			}
@@ -533,7 +597,7 @@ func init() {
 			switch f[0] {
 			case "it":
 				src = c05ItSource(f)
-			case "gen":
+			case "gen", "body":
 				src = c05GenSource(f)
 			case "src": // raw source (debugging): rest of the line with \n escapes
 				src = strings.ReplaceAll(strings.TrimPrefix(line, "src "), "\\n", "\n")
@@ -553,7 +617,7 @@ func init() {
 			if !ok {
 				return "NORES", "-"
 			}
-			if f[0] == "gen" {
+			if f[0] == "gen" || f[0] == "body" {
 				return c05ShowGen(res), ""
 			}
 			return c05Show(res), ""
